@@ -100,7 +100,7 @@ def explore(nprocs, ts_set, conds, calls, max_states=20000, max_runs=60000):
         ORACLE.start(prefix, calls)
         rec = probes.reset(0, max_events=100000)
         try:
-            with er.Watchdog(10.0):
+            with er.Watchdog(30.0):
                 procs = {p: ChoiceProbe(dict(sc['procs'][p], pid=p)) for p in pids}
                 eng = Engine(processes=procs, topology={p: {'v': ('v',)} for p in pids},
                              initial_state={'v': {}}, emitter={'type': 'verif'},
